@@ -5,7 +5,9 @@ package scanfam
 import (
 	"fmt"
 	"os"
+	"path"
 	"path/filepath"
+	"strings"
 	"testing"
 
 	"github.com/google/osv-scalibr/detector"
@@ -27,6 +29,10 @@ type findingSpec struct {
 	// bodies make the detection stage (and thus the scan) fail, with the extraction results
 	// still reported.
 	Alt bool `json:"alt,omitempty"`
+	// Target, when not empty, gives the finding target details (a package of that name and a
+	// location): the documented order of findings is (advisory reference, extra), whatever the
+	// target says.
+	Target string `json:"target,omitempty"`
 }
 
 type c08Case struct {
@@ -54,14 +60,41 @@ func genC08(t *rapid.T) c08Case {
 	if c.MultiRoot {
 		nRoots = rapid.IntRange(2, 3).Draw(t, "n_roots")
 	}
+	var resized []int // roots that hold the first tree with other file sizes
 	for i := 0; i < nRoots; i++ {
-		if i > 0 && rapid.IntRange(0, 3).Draw(t, "same_tree") == 0 {
-			c.Trees = append(c.Trees, c.Trees[0])
-			continue
+		if i > 0 {
+			switch rapid.IntRange(0, 5).Draw(t, "same_tree") {
+			case 0:
+				c.Trees = append(c.Trees, c.Trees[0])
+				continue
+			case 1, 2:
+				c.Trees = append(c.Trees, c.Trees[0])
+				resized = append(resized, i)
+				continue
+			}
 		}
 		c.Trees = append(c.Trees, genTree(t, treeOpts{MaxNodes: 20, MaxDepth: 3, Gitignore: true, Symlinks: true, Special: false}))
 	}
 	c.Cfg = genConfig(t, c.Trees[0], cfgOpts{AllowPaths: false, AllowSize: true})
+	// the same paths in several roots, with files on the other side of the size limit: what is
+	// known about a path in one root must not be used for the path of the same name in the next
+	for _, i := range resized {
+		limit := c.Cfg.MaxFileSize
+		if limit < 1 {
+			limit = 8
+		}
+		tr := memfs.Tree{Nodes: append([]memfs.Node(nil), c.Trees[0].Nodes...)}
+		for k := range tr.Nodes {
+			if tr.Nodes[k].Kind != memfs.KFile || path.Base(tr.Nodes[k].Path) == ".gitignore" {
+				continue
+			}
+			n := rapid.SampledFrom([]int{-1, 0, limit - 1, limit, limit + 1, limit + 7}).Draw(t, "resize")
+			if n >= 0 {
+				tr.Nodes[k].Content = strings.Repeat("v", n)
+			}
+		}
+		c.Trees[i] = tr
+	}
 	c.Cfg.StoreAbsolutePath = false
 	if c.MultiRoot {
 		c.RealFS = rapid.Bool().Draw(t, "real_fs")
@@ -88,9 +121,10 @@ func genC08(t *rapid.T) c08Case {
 			nf := rapid.IntRange(0, 3).Draw(t, "n_findings")
 			for j := 0; j < nf; j++ {
 				fs = append(fs, findingSpec{
-					Ref:   rapid.SampledFrom([]string{"ADV-1", "ADV-2", "ADV-3"}).Draw(t, "ref"),
-					Extra: rapid.SampledFrom([]string{"", "x", "y"}).Draw(t, "extra"),
-					Alt:   rapid.IntRange(0, 7).Draw(t, "alt") == 0,
+					Ref:    rapid.SampledFrom([]string{"ADV-1", "ADV-2", "ADV-3"}).Draw(t, "ref"),
+					Extra:  rapid.SampledFrom([]string{"", "x", "y"}).Draw(t, "extra"),
+					Alt:    rapid.IntRange(0, 7).Draw(t, "alt") == 0,
+					Target: rapid.SampledFrom([]string{"", "", "zz", "mm", "aa"}).Draw(t, "target"),
 				})
 			}
 			c.Detectors = append(c.Detectors, fs)
@@ -106,10 +140,14 @@ func mkDetectors(specs [][]findingSpec) []detector.Detector {
 		out = append(out, &recext.Detector{N: fmt.Sprintf("fake/det%d", i), Findings: func() []*detector.Finding {
 			var r []*detector.Finding
 			for _, f := range fs {
-				r = append(r, &detector.Finding{
+				fd := &detector.Finding{
 					Adv:   &detector.Advisory{ID: &detector.AdvisoryID{Publisher: "T", Reference: f.Ref}, Title: map[bool]string{false: "title ", true: "other title "}[f.Alt] + f.Ref},
 					Extra: f.Extra,
-				})
+				}
+				if f.Target != "" {
+					fd.Target = &detector.TargetDetails{Package: &extractor.Package{Name: f.Target, Version: "1", Locations: []string{f.Target + "/loc"}}, Location: []string{f.Target + "/cfg"}}
+				}
+				r = append(r, fd)
 			}
 			return r
 		}})
